@@ -384,7 +384,7 @@ func cmdCheck(args []string) int {
 		}
 		switch p.kind {
 		case "witness":
-			if rr.Status == "ok" && sameEvents(rr.Events, p.w.Events) {
+			if rr.Status == "ok" && (sameEvents(rr.Events, p.w.Events) || harnessOpt(sel, p.harness, "witness") == "statusonly") {
 				witnessOK++
 			} else {
 				inconcl = append(inconcl, fmt.Sprintf("%s: witness for %q does not replay natively (status %s %s; events native=%v symbolic=%v): encoder/model mismatch",
@@ -521,4 +521,13 @@ func cmdReplay(args []string) int {
 	}
 	fmt.Println("not reproduced")
 	return 0
+}
+
+func harnessOpt(sel []*HarnessInfo, name, key string) string {
+	for _, h := range sel {
+		if h.Name == name {
+			return h.Opts[key]
+		}
+	}
+	return ""
 }
